@@ -1,7 +1,7 @@
 (* C05 correspondence helpers: compare the trace of the model with what the implementation did.
    Only the positions of disagreeing steps are printed by the harness. *)
 From Coq Require Import ZArith List Bool Arith.
-From VF Require Import Base.Harness Circ.Moments Circ.Placement Circ.Insert Circ.History.
+From VF Require Import Base.Harness Circ.Moments Circ.Placement Circ.Insert Circ.BatchEdit Circ.History.
 Import ListNotations.
 Open Scope Z_scope.
 
@@ -19,6 +19,9 @@ Definition res_eqb (a b : res) : bool :=
   | RErr x, RErr y => err_eqb x y
   | RSet x, RSet y => set_eqb x y
   | RMoms x, RMoms y => zll_eqb x y
+  | RBool x, RBool y => Bool.eqb x y
+  | ROpt x, ROpt y => opt_eqb Z.eqb x y
+  | RFront x, RFront y => forallb (fun q => Z.eqb (fget x q) (fget y q)) (map fst x ++ map fst y)
   | _, _ => false
   end.
 
